@@ -543,6 +543,55 @@ theorem complete_bound {I : Inst} {fp : FullPlan} (hv : ValidFull I fp) (hwr : I
   rw [← complete_objective fp hg]
   exact hm _ (ilp_complete_partial hv hwr hwp)
 
+open FullPlan in
+/-- Converse of `ilp_complete_partial`: every feasible point is a valid full plan in the
+as-coded reading — so the feasible set of `gen inst` is *exactly* `ValidFull`. -/
+theorem as_coded_sound {I : Inst} {σ : Var → Int} (h : sat σ (gen I)) (hwr : I.wfRunning = true)
+    (hwp : I.wfParents = true) : ValidFull I (fpOf I σ) := validFull_of_sat h hwr hwp
+
+theorem all_congr_mem {α : Type} {l : List α} {f g : α → Bool} (h : ∀ x ∈ l, f x = g x) :
+    l.all f = l.all g := by
+  induction l with
+  | nil => rfl
+  | cons x xs ih =>
+    simp only [List.all_cons]
+    rw [h x (by simp), ih (fun y hy => h y (by simp [hy]))]
+
+open FullPlan in
+/-- The as-coded goodput of the full plan read off a feasible point is its objective. -/
+theorem as_coded_objective {I : Inst} {σ : Var → Int} (h : sat σ (gen I)) (hwr : I.wfRunning = true)
+    (hg : I.goalSlack = false) :
+    objective σ (gen I) = (((List.range I.graphs.length).filter (graphDone I (fpOf I σ))).length : Nat) := by
+  rw [objective_eq_goodput h hwr hg]
+  unfold goodput
+  congr 2
+  apply List.filter_congr
+  intro gi _
+  unfold graphDone
+  apply all_congr_mem
+  intro t ht
+  have htl := mem_rewardTasks_lt ht
+  rw [planOf_get htl]
+  unfold placedB fpOf
+  cases hr : I.running t <;> simp
+
+open FullPlan in
+/-- **The model is exact for its as-coded reading**: the objective values attained by feasible
+points are exactly the as-coded goodputs of valid full plans (`max objective = max as-coded
+goodput`); the gap to `ValidPlan` is findings C14-ILP-1/2. -/
+theorem as_coded_exact {I : Inst} (hwr : I.wfRunning = true) (hwp : I.wfParents = true)
+    (hg : I.goalSlack = false) (m : Nat) :
+    (∃ σ, sat σ (gen I) ∧ objective σ (gen I) = (m : Nat)) ↔
+    (∃ fp, ValidFull I fp ∧ ((List.range I.graphs.length).filter (graphDone I fp)).length = m) := by
+  constructor
+  · rintro ⟨σ, hs, ho⟩
+    refine ⟨fpOf I σ, as_coded_sound hs hwr hwp, ?_⟩
+    rw [as_coded_objective hs hwr hg] at ho
+    exact_mod_cast ho
+  · rintro ⟨fp, hv, hm⟩
+    refine ⟨sigmaOf I fp, ilp_complete_partial hv hwr hwp, ?_⟩
+    rw [complete_objective fp hg, hm]
+
 /-- Non-vacuity of `ilp_complete_partial`: the single-task instance of C12 with the slow
 strategy started at 4 is a valid full plan. -/
 def exFull : FullPlan := ⟨fun _ => 4, fun t => if t = 0 then some (0, 1) else none⟩
